@@ -583,9 +583,12 @@ def step (s : Sheet) : Op → Sheet × Outcome
   | .insStyleObj sels idx inOrder => insertStyle s (.style sels) idx inOrder
   | .setNsText i p u c0 c1 c2 => match s[i]? with
     | some (.ns n) =>
-      -- `self.namespaceURI = new['uri']` comes first and refuses another URI (`cssnamespacerule.py:214-221`);
-      -- then `_prefix` and the seq are set directly, without the check of the prefix setter
-      if n.uri ≠ u then (s, .err .noModificationAllowedErr)
+      -- a rule that is in a sheet refuses a NEW prefix (`new['prefix'] != self._prefix`) that another
+      -- @namespace rule of the sheet carries (`cssnamespacerule.py:214-234`, fix 525b582); then
+      -- `self.namespaceURI = new['uri']` refuses another URI (:237-243; in log mode the rule is left as it
+      -- is, fix 44fd6b4); then `_prefix` and the seq are set
+      if p ≠ n.pfx ∧ prefixTaken s i p = true then (s, .err .noModificationAllowedErr)
+      else if n.uri ≠ u then (s, .err .noModificationAllowedErr)
       else (s.set i (.ns (mkNsText p u c0 c1 c2)), .ok none)
     | _ => (s, .err .badTarget)
   | .rawDel i => match s[i]? with
